@@ -71,7 +71,9 @@ class C03(C.PipelineCheck):
         for v in range(6):
             yield ('layout/decoys%d' % v, dict(kind='decoys', v=v))
         yield ('layout/root', dict(kind='root'))
-        for form in ('HOLE_y', 'HOLE_x::HOLE_y', 'HOLE_y(rename_all = "snake_case")', 'HOLE_x::HOLE_y(rename_all = "snake_case")', '::HOLE_x::HOLE_y'):
+        for form in ('HOLE_y', 'HOLE_x::HOLE_y', 'HOLE_y(rename_all = "snake_case")', 'HOLE_x::HOLE_y(rename_all = "snake_case")', '::HOLE_x::HOLE_y',
+                     # every argument form Tauri's macro accepts keeps the function a command
+                     'HOLE_x::HOLE_y(root = "crate")', 'HOLE_x::HOLE_y(async)', 'HOLE_x::HOLE_y(rename_all = "snake_case", root = "crate")', 'HOLE_y(async, root = "crate")'):
             yield ('attr/%s' % form.replace('HOLE_', ''), dict(kind='attr', form=form))
         yield ('attr/order', dict(kind='attr-order'))
         yield ('items', dict(kind='items'))
